@@ -144,6 +144,14 @@ func c01Run(c c01Case, st *vlib.Stats) string {
 	if msg := CompareAll(eng, m, tr); msg != "" {
 		return "at the end of the history, after flushing and reloading every page: " + msg
 	}
+	// and after the session switched to another database and back (the file is
+	// closed and reopened without log replay)
+	if err := Reopen(eng); err != nil {
+		return "switching databases failed: " + err.Error()
+	}
+	if msg := CompareAll(eng, m, tr); msg != "" {
+		return "at the end of the history, after USE of another database and back: " + msg
+	}
 	return ""
 }
 
